@@ -1,6 +1,6 @@
 // Translation unit for do_source_file() (C12-K4, C13-K1, C14-K3): the real function, with every file-system
 // call and every helper replaced by a contract over the ghost typestate of env/fs.h.
-#include "/repo/src/token_enum.h"
+#include "token_enum.h"      /* from the working tree: -I <repo>/src */
 #define VERIF_E_TOKEN
 #include "base.h"
 #include "containers.h"
